@@ -129,6 +129,13 @@ def run(tier, rng, C):
     v += v2
     stats = C.merge_stats(stats, st2)
     stats["samples"] = stats["samples"][:8]
+    # the same library calls through the crate's own HTTP clients (reqwest, reqwest blocking, curl, ureq) against a scripted
+    # loopback server: the outcome must be the one an in-memory client given the same reply produces (gen/same.py)
+    from gen import same as SAME
+    bad_same, n_same = SAME.run("C13", SAME.cases(["revoke"], rng, statuses=(200, 201, 400, 401, 403, 404, 500, 503), with_large=False), C)
+    v += bad_same
+    stats["through_bundled_adapters"] = n_same
+    stats["evaluations"] = stats.get("evaluations", 0) + n_same
     stats["rule"] = ("request side: 33 revocation URLs (https in three letter-cases, http, ftp, ws, wss, httpss, https+x, shttp, file, single-slash https, with fragment, unbuildable 70 kB, wrapper schemes around an https URL (blob:, filesystem:, view-source:, jar:), look-alike schemes, https as userinfo / path / port 443 of an http URL) "
                      "x {access, refresh, custom without hint, custom with hints} x both auth types x secret on/off through the real revoke_token, observing insecure-URL error vs captured request and the HTTP call count; "
                      "status side: every status 100..=599 x rotating 10 bodies x 4 Content-Types + full product on 9 statuses + random RFC 7009/6749 error documents; "
